@@ -361,6 +361,12 @@ func (e *Engine) takeCensus(s *slot, op Op) {
 		}
 		c[n.Kind]++
 		inner[n.Addr] = n.PrefixLen
+		if len(n.Children) == 256 {
+			e.Facts["full_node256"] = 1
+			if n == d.Root {
+				e.Facts["full_node256_root"] = 1
+			}
+		}
 		if n.PrefixLen > 10 {
 			e.Facts["has_long_path"] = 1
 		}
